@@ -6,15 +6,15 @@ from harness import rawtrie
 ID = "C19"
 FUNCTIONS = ["LRUTrieNode.write", "LRUTrieNode.set_stem", "helpers.detailed_chunks_iter", "LRUTrie.add_lru",
              "LinkStore.add_links", "Traph.metrics", "LRUTrie.metrics", "Traph.count_links"]
-REQUIRED = ["growth:trie-blocks", "growth:link-blocks", "metrics:nb_pages", "metrics:nb_tail_nodes", "metrics:nb_links",
+REQUIRED = ["reach:op:clear", "growth:trie-blocks", "growth:link-blocks", "metrics:nb_pages", "metrics:nb_tail_nodes", "metrics:nb_links",
             "raw:unreferenced-block", "reach:tail1", "reach:tail2", "reach:exact-multiple", "reach:resubmission"]
-OUTSIDE = ["long stems have symbolic bytes only next to the block boundaries and at both ends (sparse), except in the thorough level n1-full-bytes", "stems longer than 223 bytes (more than 3 blocks)", "more than 3 pool LRUs / 3 write requests"]
+OUTSIDE = ["long stems have symbolic bytes only next to the block boundaries and at both ends (sparse), except in the thorough level n1-full-bytes", "stems longer than 296 bytes (more than 4 blocks)", "more than 3 pool LRUs / 3 write requests"]
 
 PAYLOAD = 74   # LRU_TRIE_STEM_SIZE, re-read from the loaded module in the harness
 
 
 def levels(tier):
-    alpha = ["page", "links", "we", "rule"]
+    alpha = ["page", "links", "we", "rule", "clear"]
     # payload lengths (stem = payload + '|'): 73->74 bytes (exactly one block), 74->75 (one tail byte),
     # 147->148 (exactly two blocks), 148->149 (two tails), 221->222 (exactly three blocks)
     if tier == "quick":
@@ -22,10 +22,12 @@ def levels(tier):
             [[74], [74, 1], [1]],
             [[73], [147], [1, 148]],
             [[1], [1, 100], [1, 100]],
+            [[221], [1], [2, 295]],
         ]
         return [
             {"name": "n1", "pools": pools, "sparse": True, "n": 1, "alphabet": alpha, "backends": ["file", "memory"], "links_batch": 2},
             {"name": "n2", "pools": pools, "sparse": True, "n": 2, "alphabet": ["page", "links", "we"], "backends": ["file"], "links_batch": 1},
+            {"name": "clear-n3", "pools": [[[1], [1, 1], [2]]], "n": 3, "alphabet": ["page", "links", "clear"], "backends": ["file", "memory"], "links_batch": 1},
         ]
     pools = [
         [[74], [74, 1], [1]],
@@ -73,6 +75,9 @@ def account(E, t, ref):
     stubs = rawtrie.parse_links(E, rawl)
     E.check(1 + len(stubs) == 1 + 2 * ref.nlinks, "growth:link-blocks",
             "link store holds %d stubs for %d submitted links" % (len(stubs), ref.nlinks))
+    if nblocks <= 1:
+        E.observe("blocks", [nblocks, len(stubs)])
+        return       # empty index: metrics() is not defined on it (division by zero), nothing more to account for
     ok, m = E.call("metrics", t.metrics, _allowed=())
     E.check(m["lru_trie"]["nb_pages"] == len(ref.pages), "metrics:nb_pages",
             "metrics say %r pages, model %d" % (m["lru_trie"]["nb_pages"], len(ref.pages)))
